@@ -210,3 +210,16 @@ PROPS["C20"] = dict(
     assumptions=["AttrCache.tla: TLC checks CacheUnobservable for every victim choice; deviations KeyWithoutType / FirstIndexOnly must violate it",
                  "pointer-receiver methods are only looked up on pointers; a name that denotes an embedded struct itself is not looked up"],
 )
+
+PROPS["C03"] = dict(
+    level="model_checking",
+    stages=[dict(name="enum", module="MC_C03", cfg={"quick": "MC_C03_quick.cfg", "thorough": "MC_C03_thorough.cfg"},
+                 timeout={"quick": 300, "thorough": 1500}, processes=3)],
+    nontrivial=lambda r: "order-insensitive" not in (r.get("tags") or []),
+    rule="17 map-consuming programs x 6 maps (untyped, map[string]int, map[string]string, map[int]string, nested) classified by TLC as "
+         "order-sensitive iff the reference output changes under some permutation of the key order; every date format string up to "
+         "FmtLen over 18 format letters + separators on two dates; values carrying addresses (pointer field, pointer to pointer, func, "
+         "chan) in 5 printing positions. Each case: 24 renders on fresh engines and fresh context values + 8 with reversed insertion "
+         "order, all in 3 independent sets of processes; every output must be byte-identical. non-trivial = not order-insensitive",
+    assumptions=["no reference order is assumed: any fixed order passes", "a failing render is a fixed result too (anyoutcome)"],
+)
